@@ -346,6 +346,66 @@ pub fn run(tier: Tier) -> i32 {
     for p in parts {
         rep.stats.merge(p);
     }
+    // lists around the solver's 64-needle boundary (bitmap vs set counting)
+    let mut wide = Stats::default();
+    for n in [1usize, 2, 62, 63, 64, 65, 66, 70, 128, 129] {
+        for ins in [false, true] {
+            let lst = crate::gen::wide_list(n, ins).yaml();
+            let ds = crate::gen::wide_docs(n.max(3));
+            let mut thresholds: Vec<usize> = vec![0, 1, 2, n / 2, n.saturating_sub(1), n, n + 1];
+            thresholds.sort();
+            thresholds.dedup();
+            let mut forms: Vec<(String, String, Option<usize>)> = vec![
+                ("k".into(), rule(&[("A".into(), format!("{{f: {}}}", lst))], "A"), None),
+                ("all(k)".into(), rule(&[("A".into(), format!("{{\"all(f)\": {}}}", lst))], "A"), Some(n)),
+            ];
+            for t in &thresholds {
+                forms.push((format!("of(k,{})", t), rule(&[("A".into(), format!("{{\"of(f, {})\": {}}}", t, lst))], "A"), Some(*t)));
+            }
+            for (label, yaml, thr) in forms {
+                let r = match eng::load(&yaml) {
+                    Ok(r) => r,
+                    Err(_) => continue,
+                };
+                let opt = eng::optimise_with(&r, eng::SW_DEFAULT, &[]).ok().map(|x| x.0);
+                for d in &ds {
+                    // members true: needle i is contained in the document string
+                    let text = match d.getm("f") {
+                        Some(MVal::Str(t)) => Some(t.clone()),
+                        _ => None,
+                    };
+                    let count = match &text {
+                        Some(t) => (0..n).filter(|i| t.contains(&format!("k{:02}x", i))).count(),
+                        None => 0,
+                    };
+                    let want = match (label.as_str(), thr) {
+                        ("k", _) => count >= 1,
+                        ("all(k)", _) => text.is_some() && count == n,
+                        (_, Some(0)) => text.is_some() && count == 0,
+                        (_, Some(t)) => count >= t,
+                        _ => false,
+                    };
+                    for (vn, rr) in [("as-loaded", Some(&r)), ("optimised", opt.as_ref())] {
+                        if let Some(rr) = rr {
+                            let got = eng::matches(rr, d);
+                            wide.states += 1;
+                            wide.transitions += 1;
+                            wide.traces += 1;
+                            wide.evaluations += 1;
+                            if got != Ok(want) {
+                                wide.push_violation(Violation {
+                                    signature: format!("wide-list:{}:{}", if label.starts_with("of") { "of(k,n)" } else { label.as_str() }, if n >= 64 { ">=64-members" } else { "<64-members" }),
+                                    witness: format!("{} over {} {}needles ({}): engine {:?}, {} members are true, expected {} ; doc {}", label, n, if ins { "case-insensitive " } else { "" }, vn, got, count, want, d.show().chars().take(80).collect::<String>()),
+                                    replay: json!({"kind":"reference","rule_yaml":yaml,"document":crate::report::mobj_to_json(d)}),
+                                });
+                            }
+                        }
+                    }
+                }
+            }
+        }
+    }
+    rep.stats.merge(wide);
     rep.stats.count("documents", ctx.docs.len() as u64);
     rep.stats.sample(json!({"quantified":"of(f, 2): ['*a*', 'ia', '?b']","written_out":"count of true among M1: {f: '*a*'}, M2: {f: ia}, M3: {f: '?b'} >= 2","document":"{f: \"ab\"}"}));
     rep.stats.sample(json!({"quantified":"of(f, 0): [1, 2]","written_out":"not (M1 or M2)","document":"{f: 3}"}));
